@@ -63,6 +63,16 @@ class BufferAPI
         }
     }
 
+    //  The length in bytes of the exported buffer: the product of the
+    // shape times the size of one item, as the buffer protocol requires.
+    Py_ssize_t totalBytes() const
+    {
+        Py_ssize_t n = atomicSize();
+        for (int d=0; d<dimensions; d++)
+            n *= shape[d];
+        return n;
+    }
+
   public:
 
     //  The number of dimensions in the data buffer (e.g. a one dimensional
@@ -101,7 +111,7 @@ class SharedBufferAPI : public BufferAPI<ArrayT>
      { return true; }
 
     Py_ssize_t numBytes() const override
-     { return _orig.len() * atomicSize() * _orig.stride(); }
+     { return this->totalBytes(); }
 
     bool readOnly() const override
      { return !_orig.writable(); }
@@ -141,7 +151,7 @@ class CopyBufferAPI : public BufferAPI<ArrayT>
      { return false; }
 
     Py_ssize_t numBytes() const override
-     { return _copy.len() * atomicSize() * _copy.stride(); }
+     { return this->totalBytes(); }
 
     bool readOnly() const override
      { return false; }
